@@ -14,6 +14,8 @@
 From Coq Require Import List Bool Arith NArith ZArith QArith Lia.
 From DV Require Import Common.Res Common.Str Common.Jv Ext.Types Ext.Seq Ext.Model Ext.Spec Ext.ValidFacts
      Ext.ProofsValidBase Ext.ProofsValidSubset Ext.ProofsValidMerge Ext.ProofsValidShape Ext.Ops Ext.ProofsValidOps.
+From DV Require Conv.Meta Conv.ProofsMetaBase Conv.ProofsMetaEmbed Conv.ProofsMetaStack Conv.ProofsMetaTop Conv.ProofsMetaEx.
+From DV Require Stack.Model Stack.Spec Stack.ProofsInv.
 Import ListNotations.
 Local Open Scope nat_scope.
 
@@ -138,6 +140,30 @@ Theorem C07_subset_shape :
       sdim (hdr_of r) = sdim (hdr_of e) /\ aff (hdr_of r) = aff (hdr_of e).
 Proof. exact @get_subset_shape. Qed.
 
+(** stack conversion (DicomStack.to_nifti with embed_meta, model Conv/Meta.v [conv_meta]): for every accepted stack
+    the embedded extension is valid, its shape is the (permuted) shape of the data array, its slice dimension is
+    the output axis the source slices are stacked along ([perm[2]]: [perm[i]] = output axis of input axis [i]) and
+    its affine is the image's.  This is the validity half of C01_lossless (Conv/ProofsMetaTop.v [lossless_top]),
+    restated; hypotheses as there ([normals_ok]: open finding N9). *)
+Theorem C07_conversion_valid :
+  forall (V : Type) (veqb : V -> V -> bool) (vnone : V), (forall a b, reflect (a = b) (veqb a b)) ->
+  forall (ms : list (Conv.Meta.mfile V)) (st : Stack.Model.state) (vo : Stack.Model.vorder) (perm : list nat)
+         (oaff : list (list Q)) (filt : key -> bool),
+    Stack.ProofsInv.wf st -> Conv.ProofsMetaStack.covers ms st -> Conv.ProofsMetaStack.metas_ok ms ->
+    Conv.ProofsMetaStack.normals_ok ms -> Conv.ProofsMetaEmbed.is_perm3 perm -> Conv.ProofsMetaBase.aff_ok oaff ->
+    forall st' o, Stack.Model.to_nifti st vo true = (st', Ok o) ->
+    exists e,
+      Conv.Meta.conv_meta veqb vnone ms st vo perm oaff filt = (st', Ok e) /\
+      valid e /\
+      shape (hdr_of e) = Conv.Meta.permute_shape perm (Stack.Model.o_shape o) /\
+      sdim (hdr_of e) = Some (nth 2 perm 2) /\ aff (hdr_of e) = oaff.
+Proof.
+  intros V veqb vnone Hspec ms st vo perm oaff filt Hwf Hcov Hm Hn Hp Ha st' o Ho.
+  destruct (@Conv.ProofsMetaTop.lossless_top V veqb vnone Hspec ms st vo perm oaff filt Hwf Hcov Hm Hn Hp Ha st' o Ho)
+    as [S [T [Vn [r [c [e [_ [_ [_ [_ [_ [He [Hv [Hs [Hd [Haff _]]]]]]]]]]]]]]]].
+  exists e. split; [exact He|]. split; [exact Hv|]. split; [exact Hs|]. split; [exact Hd | exact Haff].
+Qed.
+
 (** * Non-vacuity *)
 Definition ex_aff : list (list Q) := [[2; 0; 0; -8]; [0; 0; 1 # 2; 3]; [0; -1; 0; 0]; [0; 0; 0; 1]]%Q.
 Definition ex5 : ext jv :=
@@ -253,3 +279,20 @@ Example C07_shape_nonvacuous :
   (exists r, get_subset jv_eqb JNull (mk_ext (mk_hdr [2; 2; 2; 1; 2] (Some 1) ex_aff false true) []) 4 0 = Ok r /\
              shape (hdr_of r) = [2; 2; 2]).
 Proof. split; eexists; repeat split; vm_compute; reflexivity. Qed.
+
+(** C07_conversion_valid: the 2 x 2 x 2 grid of C01's example, cyclic axis permutation [1;2;0] (slice axis moved to
+    output axis 0), every volume reversed: the hypotheses hold, the stack converts, and the embedded extension has
+    the permuted shape and slice dimension perm[2] = 0 *)
+Example C07_conversion_valid_nonvacuous :
+  (Stack.ProofsInv.wf Conv.ProofsMetaEx.ex_st /\ Conv.ProofsMetaStack.covers Conv.ProofsMetaEx.ex_ms Conv.ProofsMetaEx.ex_st /\
+   Conv.ProofsMetaStack.metas_ok Conv.ProofsMetaEx.ex_ms /\ Conv.ProofsMetaStack.normals_ok Conv.ProofsMetaEx.ex_ms /\
+   Conv.ProofsMetaEmbed.is_perm3 Conv.ProofsMetaEx.ex_perm /\ Conv.ProofsMetaBase.aff_ok Conv.ProofsMetaEx.ex_oaff) /\
+  (exists st' o, Stack.Model.to_nifti Conv.ProofsMetaEx.ex_st Conv.ProofsMetaEx.ex_vo true = (st', Ok o) /\
+                 Stack.Model.o_shape o = [2; 3; 2; 2; 2]) /\
+  exists e, Conv.ProofsMetaEx.ex_result = Ok e /\ shape (hdr_of e) = [2; 2; 3; 2; 2] /\ sdim (hdr_of e) = Some 0 /\
+            Conv.ProofsMetaEx.ex_perm = [1; 2; 0].
+Proof.
+  split; [exact Conv.ProofsMetaEx.ex_hyps|]. split.
+  - destruct Conv.ProofsMetaEx.ex_nifti as [st' [o [H1 [H2 _]]]]. exists st', o. split; assumption.
+  - destruct Conv.ProofsMetaEx.ex_lossless as [e [H1 [H2 [H3 _]]]]. exists e. repeat split; assumption.
+Qed.
